@@ -86,6 +86,8 @@ class BaseProtocol(asyncio.Protocol):
 
         # This will resume parsing any unprocessed data from the last pause.
         if not self._upgraded and resume_parser:
+            if self._parser is not None:
+                self._parser.resume_reading()
             self.data_received(b"")
 
         # Reading may have been paused again in the above call if there was a lot of
